@@ -28,15 +28,17 @@ Proof. exact unregister_unknown_noop. Qed.
 Print Assumptions c15_unregister_unknown_noop.
 
 (** The whole trace specification (membership, Unregister, Start/End fan-out, ForceFlush and
-    Shutdown results, per-registration single Shutdown whatever the context, nothing after a
-    live-context Shutdown) holds of the model for ALL configurations and operation sequences. *)
+    Shutdown results, per-registration single Shutdown whatever the context, each exporter behind a
+    simple / batch processor shut down exactly once - when its processor is shut down for the first
+    time - and never again, nothing after a live-context Shutdown) holds of the model for ALL
+    configurations and operation sequences. *)
 Theorem c15_trace_spec : forall kinds members ops,
-  tspec_ok members (trun kinds (tinit members) ops) = true.
+  tspec_ok kinds members (trun kinds (tinit members) ops) = true.
 Proof. exact tspec_ok_model. Qed.
 Print Assumptions c15_trace_spec.
 
 Theorem c15_trace_spec_old_refuted : exists kinds members ops,
-  tspec_ok members (trun_old kinds (tinit members) ops) = false.
+  tspec_ok kinds members (trun_old kinds (tinit members) ops) = false.
 Proof. exact tspec_ok_old_refuted. Qed.
 Print Assumptions c15_trace_spec_old_refuted.
 
@@ -158,14 +160,24 @@ Proof. eexists. split; [reflexivity|]. vm_compute. auto. Qed.
 
 (** The judges reject what the property forbids. *)
 Example ex_rejects_f_c15_1 :
-  tspec_ok [0; 1] [(TUnreg 2, quiet ENil false); (TStart false, {| o_err := ENil; o_flag := true; o_calls := [(1, KOnStart)]; o_xcalls := []; o_wrote := false |})] = false.
+  tspec_ok (fun _ => PCount) [0; 1] [(TUnreg 2, quiet ENil false); (TStart false, {| o_err := ENil; o_flag := true; o_calls := [(1, KOnStart)]; o_xcalls := []; o_wrote := false |})] = false.
 Proof. reflexivity. Qed.
 Example ex_rejects_second_shutdown :
-  tspec_ok [0] [(TShutdown true, {| o_err := ENil; o_flag := false; o_calls := [(0, KShutdown)]; o_xcalls := []; o_wrote := false |});
+  tspec_ok (fun _ => PCount) [0] [(TShutdown true, {| o_err := ENil; o_flag := false; o_calls := [(0, KShutdown)]; o_xcalls := []; o_wrote := false |});
                 (TShutdown true, {| o_err := ENil; o_flag := false; o_calls := [(0, KShutdown)]; o_xcalls := []; o_wrote := false |})] = false.
 Proof. reflexivity. Qed.
 Example ex_rejects_f_c15_3 :
-  tspec_ok [0] [(TShutdown false, quiet ECtx false)] = false.
+  tspec_ok (fun _ => PCount) [0] [(TShutdown false, quiet ECtx false)] = false.
+Proof. reflexivity. Qed.
+Example ex_rejects_double_exporter_shutdown :
+  (* the exporter of simple processor 0 is shut down by Unregister and again by the provider's Shutdown *)
+  tspec_ok (fun _ => PSimple XStd) [0; 0]
+    [(TUnreg 0, {| o_err := ENil; o_flag := false; o_calls := [(0, KShutdown)]; o_xcalls := [(0, KXShutdown)]; o_wrote := false |});
+     (TShutdown true, {| o_err := ENil; o_flag := false; o_calls := [(0, KShutdown)]; o_xcalls := [(0, KXShutdown)]; o_wrote := false |})] = false.
+Proof. reflexivity. Qed.
+Example ex_rejects_missing_exporter_shutdown :
+  tspec_ok (fun _ => PBatch XStd) [0]
+    [(TShutdown true, {| o_err := ENil; o_flag := false; o_calls := [(0, KShutdown)]; o_xcalls := []; o_wrote := false |})] = false.
 Proof. reflexivity. Qed.
 Example ex_rejects_double_log_shutdown :
   lstorm_ok [LSimple XStd] [2] [2] [ENil; ENil] [] = false.
